@@ -51,7 +51,7 @@ def keyspace(c):
             "cds": c["CDs"], "scopes": c["Scopes"]}
 
 
-def write_trace_cfg(ctx, base, cap=None, enabled=None):
+def write_trace_cfg(ctx, base, cap=None, suffix=""):
     """Trace cfg with the constants of <base>.cfg (written into the scratch copy of the spec dir)."""
     d = ctx.spec_dir(MOD)
     lines = []
@@ -62,7 +62,7 @@ def write_trace_cfg(ctx, base, cap=None, enabled=None):
             if cap is not None and re.match(r"\s*Cap\s*=", line):
                 line = "  Cap = %d\n" % cap
             lines.append(line)
-    name = "Trace_%s.cfg" % base
+    name = "Trace_%s%s.cfg" % (base, suffix)
     with open(os.path.join(d, name), "w") as f:
         f.write("".join(lines))
         f.write("SPECIFICATION TraceSpec\nINVARIANTS %s\nPROPERTIES %s\nPOSTCONDITION TraceAccepted\nCHECK_DEADLOCK FALSE\n"
@@ -136,22 +136,67 @@ def conv_last(l):
             "n": l["n"], "down": l["down"], "res": l["res"]}
 
 
-def sim_paths(ctx, cfg, num, depth, reqs=(), tag=""):
-    behs = ctx.tlc_behaviours(MOD, MCSPEC, cfg + ".cfg", num=num, depth=depth, workers=4)
+STATE_RE = re.compile(r"\\\* <(.*?) line \d+, col \d+ to line \d+, col \d+ of module \w+>\s*\nSTATE_\d+ ==\s*\n(.*?)(?=\n\n|\Z)", re.S)
+ENT_RE = re.compile(r'<<([-\d, ]+)>> :>\s*\[\s*streak \|-> (\d+),\s*rel \|-> (-?\d+),\s*bo \|-> (\d+),\s*cause \|-> "([^"]*)"\s*\]')
+
+
+def fast_state(text):
+    """The parts of a printed TLC state the drivers use (vf.parse_tla_state is too slow for
+    thousands of 50-key states)."""
+    q, z = [], []
+    for m in ENT_RE.finditer(text):
+        if m.group(2) == "0":
+            continue
+        key = [int(x) for x in m.group(1).split(",")]
+        e = {"key": key, "streak": int(m.group(2)), "rel": int(m.group(3)), "bo": int(m.group(4)), "cause": m.group(5)}
+        (q if len(key) == 5 else z).append(e)
+    i = text.index("/\\ last = [")
+    j = text.find("\n/\\ ", i + 5)
+    lt = text[i:j if j > 0 else len(text)]
+
+    def f(name, pat):
+        m = re.search(r"[\[ ]" + name + r" \|-> " + pat, lt)
+        if not m:
+            raise vf.MachineryError("cannot read last.%s in %r" % (name, lt[:300]))
+        return m.group(1)
+    src = f("src", r"<<([-\d, ]*)>>")
+    last = {"hit": f("hit", "(TRUE|FALSE)") == "TRUE", "kind": f("kind", r'"([^"]*)"'),
+            "src": [int(x) for x in src.split(",")] if src.strip() else [],
+            "streak": int(f("streak", r"(-?\d+)")), "rel": int(f("rel", r"(-?\d+)")), "n": int(f("n", r"(-?\d+)")),
+            "down": f("down", "(TRUE|FALSE)") == "TRUE", "res": f("res", r'"([^"]*)"')}
+    return {"q": q, "z": z}, last
+
+
+def sim_paths(ctx, cfg, num, depth, workers=4, tag=""):
+    """-simulate behaviours of <cfg> as driver paths (about num in total)."""
+    import glob
+    d = ctx.spec_dir(MOD)
+    pref = os.path.join(d, "sim_%s_%d" % (cfg, len(ctx.cov["tlc_runs"])))
+    r = ctx.tlc(MOD, MCSPEC, cfg + ".cfg", workers=workers, timeout=900,
+                args=["-simulate", "file=%s,num=%d" % (pref, max(1, num // workers)), "-depth", str(depth), "-seed", str(ctx.seed)],
+                must_pass=False, tag="simulate", count=False, heap="4g")
+    if r.rc != 0:
+        raise vf.MachineryError("TLC simulate failed rc=%d on %s\n%s" % (r.rc, cfg, "\n".join(r.out.splitlines()[-30:])))
     paths, seen = [], set()
-    for bi, b in enumerate(behs):
-        steps = []
-        for lab, st in b[1:]:
+    for bi, fn in enumerate(sorted(glob.glob(pref + "_*"))):
+        with open(fn) as f:
+            text = f.read()
+        os.remove(fn)
+        steps, labs = [], []
+        for m in STATE_RE.finditer(text):
+            lab = m.group(1).strip()
+            if lab.startswith("Init"):
+                continue
             op, args = parse_label(lab)
             s = conv_step(op, args)
-            s["dst"] = conv_state(st, reqs)
-            s["exp"] = conv_last(st["last"])
+            s["dst"], s["exp"] = fast_state(m.group(2))
             steps.append(s)
-        key = "|".join(x[0] for x in b[1:])
+            labs.append(lab)
+        key = "|".join(labs)
         if key in seen or not steps:
             continue
         seen.add(key)
-        ctx._distinct.add("c13-sim:%s:%s" % (cfg, key))
+        ctx._distinct.add("c13-sim:%s:%s" % (cfg, vf.hashlib.sha256(key.encode()).hexdigest()[:16]))
         paths.append({"id": "%s%s#%d" % (cfg, tag, bi), "steps": steps})
     if not paths:
         raise vf.MachineryError("TLC produced no behaviours for %s" % cfg)
@@ -217,10 +262,10 @@ def validate_trace(ctx, name, base_cfg, trace, cap=None, what="FailureCache"):
             ctx.cov["drift"] += int(m.group(1))
             ctx.log("DRIFT: %s lines of %s are not predicted by FailureCache.tla (no predicate failed)" % (m.group(1), name))
     if r.violated and r.violated != "TraceAccepted":
-        lines = open(trace).read().splitlines()[: r.depth + 1]
+        lines = open(trace).read().splitlines()[: max(1, r.depth - 1)]
         ctx.violation("c13/trace/" + r.violated,
                       "[%s] %s is false on a recorded execution of the real %s (trace line %d: %s)"
-                      % (name, r.violated, what, r.depth, lines[-1][:300] if lines else ""),
+                      % (name, r.violated, what, r.depth - 1, lines[-1][:300] if lines else ""),
                       {"trace_prefix": lines[-30:], "cfg": base_cfg})
     elif not ok:
         ctx.cov["drift"] += 1
@@ -236,7 +281,7 @@ def monitor_selftest(ctx, base_cfg, trace):
     bad = trace + ".corrupt"
     if not corrupt_trace(trace, bad):
         raise vf.MachineryError("binding self-test: no RecordQuestion line to corrupt in %s" % trace)
-    tcfg = write_trace_cfg(ctx, base_cfg)
+    tcfg = write_trace_cfg(ctx, base_cfg, suffix="_selftest")
     ok, r = ctx.tlc_trace(MOD, "Trace_FailureCache.tla", tcfg, bad, timeout=600)
     if not r.violated or r.violated == "TraceAccepted":
         raise vf.MachineryError("binding self-test: the trace monitor accepted a corrupted back-off (vacuous monitor)")
@@ -267,12 +312,36 @@ def run_driver(ctx, test, name, cfgname, paths, shapes=1, random=0, extra=None, 
 def model_check(ctx, cfgs, workers, timeout):
     def one(c):
         return ctx.tlc(MOD, MCSPEC, c + ".cfg", workers=workers, timeout=timeout, heap="6g")
-    with ThreadPoolExecutor(max_workers=3) as ex:
-        list(ex.map(one, cfgs))
+    return [POOL.submit(one, c) for c in cfgs]
+
+
+POOL = ThreadPoolExecutor(max_workers=4)
+TRACE_CAP_QUICK = 30000
+
+
+def cap_trace(path, max_lines):
+    """Keep whole runs (Reset .. Reset) up to max_lines lines."""
+    kept, cur, n = [], [], 0
+    with open(path) as f:
+        for line in f:
+            if line.startswith('{"op":"Reset"') and cur:
+                if n + len(cur) > max_lines and kept:
+                    cur = []
+                    break
+                kept += cur
+                n += len(cur)
+                cur = []
+            cur.append(line)
+    if cur and (n + len(cur) <= max_lines or not kept):
+        kept += cur
+    with open(path, "w") as f:
+        f.writelines(kept)
+    return len(kept)
 
 
 def run(ctx, replay):
     thorough = ctx.tier == "thorough"
+    n = 1 if not thorough else 8
     ctx.cov["rule"] = ("behaviours = every labelled edge of the TLC state graphs G_Names / G_Dims (covering paths) + "
                        "simulated behaviours of FailureCache.tla, each replayed on the real FailureCache / cache.Cache "
                        "under several name/type/class/ECS shapes; distinct = distinct labelled edges / behaviours")
@@ -281,58 +350,78 @@ def run(ctx, replay):
         "answer cache abstracted: after a useful reply the ordinary answer entry is dropped (overlay VerifC13DropAnswer)",
         "64-bit hash collisions between different failure keys are not exercised",
         "the resolver's zone admission filter is driven through overlay VerifC13RecordZoneFailure with scripted causes",
+        "request-local causes that live on the caller's context (cancel, client deadline, best-effort, outer ledger) are "
+        "injected on message-born requests only: a wire-born request is detached onto the chain's own context",
     ]
-    # ---- the model on its own ----------------------------------------------
-    quick_cfgs = ["MC_Backoff", "MC_MidS", "MC_Kill", "MC_ProbeS"]
-    thorough_cfgs = ["MC_Backoff34", "MC_Backoff15", "MC_Backoff22", "MC_Cap3", "MC_Probe", "MC_Mid"]
-    model_check(ctx, quick_cfgs, workers=4, timeout=600)
+    ctx.spec_dir(MOD)
+    # ---- phase 1: TLC alone (model check, state graphs, simulated behaviours), in parallel
+    mc = model_check(ctx, ["MC_Backoff", "MC_MidS", "MC_Kill", "MC_ProbeS"], workers=4, timeout=900)
     if thorough:
-        model_check(ctx, thorough_cfgs, workers=5, timeout=2400)
+        mc += model_check(ctx, ["MC_Backoff34", "MC_Backoff15", "MC_Backoff22", "MC_Cap3", "MC_Probe", "MC_Mid"],
+                          workers=5, timeout=2400)
+    graphs = ["G_Names", "G_Dims"] + (["G_Class"] if thorough else [])
+    gfut = {g: POOL.submit(graph_paths, ctx, g) for g in graphs}
+    sims = {"Sim_Api": (120 * n, 40), "Sim_Cap": (80 * n, 40), "Sim_Req": (60 * n, 40), "Sim_Kill": (32 * n, 30),
+            "Sim_Probe": (24 * n, 40)}
+    if thorough:
+        sims["Sim_Store"] = (200, 40)
+    sfut = {c: POOL.submit(sim_paths, ctx, c, num, depth) for c, (num, depth) in sims.items()}
 
-    # ---- spec -> code on the exported FailureCache --------------------------
-    all_paths = []
-    for g in ("G_Names", "G_Dims"):
-        paths, nedges = graph_paths(ctx, g)
-        res, trace = run_driver(ctx, "TestFailureCacheReplay", "fc_" + g, g, paths, shapes=1 if not thorough else 3,
-                                random=0, what="FailureCache " + g)
+    # ---- phase 2: spec -> code replays (each records its trace)
+    traces = []
+
+    def fc(name, cfgname, paths, shapes, rnd):
+        res, trace = run_driver(ctx, "TestFailureCacheReplay", name, cfgname, paths, shapes=shapes, random=rnd,
+                                what="FailureCache " + cfgname)
+        return res, trace
+
+    for g in graphs:
+        paths, nedges = gfut[g].result()
+        res, trace = fc("fc_" + g, g, paths, 1 if not thorough else 3, 0)
         ctx.cov["replay"]["fc_" + g]["edges_covered"] = nedges
-        validate_trace(ctx, "fc_" + g, g, trace)
-        if g == "G_Names":
-            monitor_selftest(ctx, g, trace)
-    for cfgname, num, depth, rnd in (("Sim_Api", 150 if not thorough else 1500, 40, 10 if not thorough else 60),
-                                     ("Sim_Cap", 100 if not thorough else 800, 40, 10 if not thorough else 40)):
-        paths = sim_paths(ctx, cfgname, num, depth)
-        res, trace = run_driver(ctx, "TestFailureCacheReplay", "fc_" + cfgname, cfgname, paths, shapes=1,
-                                random=rnd, what="FailureCache " + cfgname)
-        validate_trace(ctx, "fc_" + cfgname, cfgname, trace)
+        traces.append(("fc_" + g, g, trace, "FailureCache"))
+    for cfgname, rnd in (("Sim_Api", 10 * n), ("Sim_Cap", 10 * n)):
+        res, trace = fc("fc_" + cfgname, cfgname, sfut[cfgname].result(), 1, rnd)
+        traces.append(("fc_" + cfgname, cfgname, trace, "FailureCache"))
+        if cfgname == "Sim_Cap" and not res.get("counters", {}).get("evictions"):
+            raise vf.MachineryError("capacity replay never evicted anything")
 
-    # ---- request level: cache.New + ServeDNS with a scripted downstream ------
-    n = 1 if not thorough else 8
-    for cfgname, num, depth in (("Sim_Req", 60 * n, 40), ("Sim_Store", 30 * n, 40), ("Sim_Kill", 30 * n, 30)):
-        paths = sim_paths(ctx, cfgname, num, depth)
-        res, trace = run_driver(ctx, "TestRequestReplay", "req_" + cfgname, cfgname, paths, what="cache.Cache " + cfgname)
+    # request level: cache.New + ServeDNS with a scripted downstream
+    for cfgname in ["Sim_Req", "Sim_Kill"] + (["Sim_Store"] if thorough else []):
+        res, trace = run_driver(ctx, "TestRequestReplay", "req_" + cfgname, cfgname, sfut[cfgname].result(),
+                                what="cache.Cache " + cfgname)
         cnt = res.get("counters", {})
         if cfgname == "Sim_Req":
             if not cnt.get("requests_wire") or not cnt.get("requests_msg") or not cnt.get("served_from_failure_cache"):
                 raise vf.MachineryError("request replay is vacuous: %s" % cnt)
-            missing = [o for o in ("useful", "servfail", "authfail", "budget", "attemptLimit", "deadline", "cancel", "shed", "bestEffort")
-                       if not cnt.get("outcome_" + o)]
+            missing = [o for o in ("useful", "servfail", "authfail", "budget", "attemptLimit", "deadline", "cancel", "shed",
+                                   "bestEffort") if not cnt.get("outcome_" + o)]
             if missing:
                 raise vf.MachineryError("request replay never exercised outcomes %s" % missing)
-        validate_trace(ctx, "req_" + cfgname, cfgname, trace, what="cache.Cache")
+        traces.append(("req_" + cfgname, cfgname, trace, "cache.Cache"))
 
-    # ---- SingleProbe: concurrent followers of an expired generation ---------
-    paths = sim_paths(ctx, "Sim_Probe", 40 * n, 50, reqs=(1, 2, 3, 4))
-    res, trace = run_driver(ctx, "TestProbeReplay", "probe_Sim_Probe", "Sim_Probe", paths, what="cache.Cache probe election", timeout=1500)
+    # SingleProbe: concurrent followers of an expired generation, held at gates
+    res, trace = run_driver(ctx, "TestProbeReplay", "probe_Sim_Probe", "Sim_Probe", sfut["Sim_Probe"].result(),
+                            what="cache.Cache probe election", timeout=1500)
     cnt = res.get("counters", {})
     if not cnt.get("followers_parked"):
         raise vf.MachineryError("probe replay is vacuous: no follower ever waited on a leader (%s)" % cnt)
-    validate_trace(ctx, "probe_Sim_Probe", "Sim_Probe", trace, what="cache.Cache")
+    traces.append(("probe_Sim_Probe", "Sim_Probe", trace, "cache.Cache"))
 
-    # ---- shed load through the real resolver handler --------------------------
+    # shed load through the real resolver handler
     c = read_cfg("Sim_Req")
     res = ctx.go_driver("./c13", "TestResolverShed", {"cfg": driver_cfg(c)}, name="resolver_shed", timeout=300)
     ctx.take_driver_result(res, "[resolver capacity shed] ")
     ctx.cov["replay"]["resolver_shed"] = {"replays": res["cases"], "skipped": res.get("skipped", [])}
     if res.get("skipped"):
         raise vf.MachineryError("resolver shed probe: %s" % res["skipped"][:2])
+
+    # ---- phase 3: code -> spec, the recorded executions under the property monitor (parallel)
+    tf = []
+    for name, cfgname, trace, what in traces:
+        if not thorough:
+            cap_trace(trace, TRACE_CAP_QUICK)
+        tf.append(POOL.submit(validate_trace, ctx, name, cfgname, trace, None, what))
+    tf.append(POOL.submit(monitor_selftest, ctx, "G_Names", traces[0][2]))
+    for f in tf + mc:
+        f.result()
